@@ -567,7 +567,7 @@ pub fn rotation_worker(tier: &str) {
 }
 
 fn rotation(run: &mut Run) {
-    let exe = std::env::current_exe().unwrap();
+    let exe = crate::util::self_exe();
     let sizes = ["250", "500", "750", "1250"];
     let handles: Vec<_> = sizes
         .iter()
